@@ -1144,8 +1144,10 @@ func main() {
 		nStd = 0
 	}
 	srng := vh.NewRng(a.Seed*7919 + 94)
+	avoidNilMulti := nStd > 0 && stdNilMultiBroken()
+	rep.Extra["defect_present:typeswitch-nil-multitype-clause-with-interface"] = avoidNilMulti
 	for i := 0; i < nStd; i++ {
-		p := genStdCaseProg(srng.Fork(), fmt.Sprintf("s%04d", i), nStdSites)
+		p := genStdCaseProg(srng.Fork(), fmt.Sprintf("s%04d", i), nStdSites, avoidNilMulti)
 		ck := typecheck(p, false)
 		if len(ck.declErrs) > 0 {
 			fmt.Fprintf(os.Stderr, "generator bug: declarations of %s do not type-check: %v\n%s\n", p.Name, ck.declErrs, p.goSource("h", map[int]bool{}))
